@@ -40,7 +40,8 @@ ASSUMPTIONS = [
     'disagreements that appear only under the real name (overload '
     'competition through per-definition keyword names) are counted, not '
     'judged',
-    'now, random and localtz are excluded by name; no_kwargs definitions '
+    'for now, random and localtz only acceptance (value vs error class) is '
+    'compared; no_kwargs definitions '
     'are exempt from keyword spellings, lazily evaluated parameters from '
     'explicit defaults; lazily evaluated parameters go through call() only '
     'as values (an expression cannot be passed through call()); operator '
@@ -284,6 +285,26 @@ def spellings(d, fill):
             return text, binds
         if all(f[0] == 'var' for f in base(0).positional):
             out.append(('call()', build(via_call)))
+
+            def via_call_kwargs(c):
+                # every visible parameter through the kwargs dictionary
+                binds = {}
+
+                def r(f):
+                    n = 'v%d' % len(binds)
+                    binds[n] = f[1]
+                    return '$' + n
+                lead = [r(f) for f in c.positional[:first]]
+                pairs = [(p.alias, r(f)) for p, f in zip(
+                    pos_params[first:], c.positional[first:])]
+                pairs += [(k, r(f)) for k, f in c.kw]
+                kws = ', '.join('%s => %s' % kv for kv in pairs)
+                if d.method_only and lead:
+                    return "call('%s', [], {%s}, %s)" % (
+                        d.clone_name, kws, lead[0]), binds
+                return "call('%s', [], {%s})" % (d.clone_name, kws), binds
+            if nk and len(pos_params) > first:
+                out.append(('call()-all-kwargs', build(via_call_kwargs)))
     # 7. lazily evaluated parameters given a *value* (a variable holding
     # data): the expression '$v' evaluates to that value every time, and
     # call() passes the value itself - all spellings mean the same
@@ -418,9 +439,9 @@ def _check_def(run, case):
     if d is None:
         run.exclude('definition no longer registered')
         return
-    if d.fd.name in NONDETERMINISTIC:
-        run.exclude('non-deterministic by documentation: ' + d.fd.name)
-        return
+    # (now, random, localtz: values differ from call to call; only whether
+    # a spelling is accepted is compared)
+    vague = d.fd.name in NONDETERMINISTIC
     fill = case.get('fill', 0)
     if not _refused_calls(run, case, d, fill, conv):
         return
@@ -432,6 +453,8 @@ def _check_def(run, case):
         except Exception:   # noqa
             continue
         out = evaluate(text, lambda b=binds: b, conv)
+        if vague and out[0] == 'ok':
+            out = ('ok', '<some value>')
         results.append((label, text, out))
     by_group = {}
     for label, text, out in results:
